@@ -7,7 +7,7 @@ from common import *
 ARITY = [0, 1, 2, 3]
 
 
-def gen_decl(rng, kinds=("expect", "expect", "expect", "always", "never"), times_range=(0, 5), fns=4):
+def gen_decl(rng, kinds=("expect", "expect", "expect", "always", "never"), times_range=(0, 5), fns=4, side=0.0):
     k = rng.choice(kinds)
     f = rng.randrange(fns)
     toks = [k, str(f)]
@@ -19,6 +19,9 @@ def gen_decl(rng, kinds=("expect", "expect", "expect", "always", "never"), times
         for p in range(ARITY[f]):
             if rng.random() < 0.35:
                 toks.append("w%d:%s:%d" % (p, rng.choice(["eq", "eq", "ne", "lt", "gt"]), rng.choice([0, 1, 2, 3])))
+    if k != "never" and f < fns - 1 and rng.random() < side:
+        g = rng.choice([x for x in range(fns) if x > f])      # callbacks only call "later" functions: no mutual recursion in the test program
+        toks.append("s%d:%s" % (g, ",".join(str(rng.choice([0, 1, 2, 3])) for _ in range(ARITY[g]))))
     return " ".join(toks)
 
 
@@ -65,7 +68,7 @@ def run_impl_ops(exe, blocks, env=None, timeout=300):
             res.append(cur); cur = []
         elif l.startswith("out "):
             cur.append(l)
-    return res, r.returncode, r.stderr.decode("latin-1")[:6000]
+    return res, r.returncode, r.stderr.decode("latin-1")[-8000:]
 
 
 def run_model_ops(cmd, blocks):
